@@ -47,7 +47,12 @@ def cases(tier, seed):
             c["ufo"]["glyphs"]["x.alt"] = {"cs": [layout_gen.box()], "comps": [], "anchors": [], "w": 500 * P, "h": 0, "u": []}
         # the replacement glyph carries cursive anchors and is not mentioned by the feature file
         c["ufo"]["glyphs"]["x.alt"]["anchors"] = [{"n": "entry", "x": 300 * P, "y": 0}, {"n": "exit", "x": 0, "y": 20 * P}]
-        c["ufo"]["fea"] = "\n".join(l for l in c["ufo"]["fea"].split("\n") if "x.alt" not in l)
+        import re as _re
+
+        # no hand-written GDEF and no GSUB rule mentioning the replacement glyph in these cases
+        fea_ = _re.sub(r"table GDEF \{.*?\} GDEF;", "", c["ufo"]["fea"], flags=_re.S)
+        c["ufo"]["fea"] = "\n".join(l for l in fea_.split("\n") if "x.alt" not in l)
+        c["userClasses"] = None
         src = rng.choice([n for n in ("a", "b", "beh-ar", "period") if n in names] or [names[0]])
         c.pop("kwargs", None)
         c.update({"cid": f"c18-{seed}-ds{k}", "lib": rng.choice(["ufoLib2", "defcon"]), "writers": "default", "ds": True,
